@@ -1903,10 +1903,12 @@ impl Value {
         if self.rank() <= 1 {
             match self {
                 Value::Num(nums) => {
+                    // Like `where`, reject the argument even if the offending
+                    // number comes after the result
+                    if nums.data.iter().any(|n| n.fract() != 0.0 || *n < 0.0) {
+                        return Err(env.error("Argument to where must be an array of naturals"));
+                    }
                     for (i, n) in num_iter(nums.data.iter().enumerate()) {
-                        if n.fract() != 0.0 || *n < 0.0 {
-                            return Err(env.error("Argument to where must be an array of naturals"));
-                        }
                         if *n != 0.0 {
                             return Ok(Array::scalar(i as f64));
                         }
@@ -1935,10 +1937,12 @@ impl Value {
         } else {
             match self {
                 Value::Num(nums) => {
+                    // Like `where`, reject the argument even if the offending
+                    // number comes after the result
+                    if nums.data.iter().any(|n| n.fract() != 0.0 || *n < 0.0) {
+                        return Err(env.error("Argument to where must be an array of naturals"));
+                    }
                     for (i, n) in num_iter(nums.data.iter().enumerate()) {
-                        if n.fract() != 0.0 || *n < 0.0 {
-                            return Err(env.error("Argument to where must be an array of naturals"));
-                        }
                         if *n != 0.0 {
                             let mut i = i;
                             let mut res = Vec::with_capacity(nums.rank());
